@@ -17,7 +17,8 @@ structure DocEntry where
   attrs : Nat     -- 0: no attributes; 1: dataset/created/modified/version and the sequence's attributes;
                   -- 2: as 1 but `version="x"` (well-formed XML, invalid against the Uniprot schema)
   extra : Bool    -- protein and organism children (the organism has `name` children of its own)
-  filler : Nat    -- after the entry: 0 newline; 1 a copyright element; 2 a comment; 3 nothing
+  filler : Nat    -- after the entry: 0 newline; 1 a copyright element; 2 a comment; 3 nothing;
+                  -- 4 a copyright element whose text holds the entity `&amp;`
   deriving Repr
 
 structure Doc where
@@ -77,6 +78,8 @@ def fillerToks : Nat → List Tok
   | 0 => [nl]
   | 1 => [nl, .start (s "copyright") [] false, .chars (s "Copyrighted by the UniProt Consortium"), .close (s "copyright"), nl]
   | 2 => [nl, .comment (s " between entries "), nl]
+  | 4 => [nl, .start (s "copyright") [] false, .chars (s "Copyrighted by the UniProt Consortium &amp; others"),
+          .close (s "copyright"), nl]
   | _ => []
 
 def entriesToks (ds : List DocEntry) : List Tok := ds.flatMap (fun d => entryToks d ++ fillerToks d.filler)
@@ -117,6 +120,7 @@ def fillerEvs : Nat → List Ev
   | 0 => [.other]                                      -- newline
   | 1 => [.other, .start, .other, .other, .other]      -- newline, <copyright>, text, </copyright>, newline
   | 2 => [.other, .other, .other]                      -- newline, comment, newline
+  | 4 => [.other, .start, .other, .other, .other]      -- as 1, the text holds an entity
   | _ => []
 
 /-- The token trace of `renderDoc d` for a document whose entries are valid against the schema: the
@@ -172,6 +176,24 @@ def isEndTagName (t : Str) (p : Nat) : Bool :=
   2 ≤ p && t[p - 2]? == some '<' && t[p - 1]? == some '/' &&
     (match t[p]? with | some c => c.isAlpha | none => false)
 
+/-- position `p` holds the quote that opens an attribute value (`="`) -/
+def isOpeningQuote (t : Str) (p : Nat) : Bool :=
+  1 ≤ p && t[p]? == some '"' && t[p - 1]? == some '='
+
+/-- position `p` lies in an entity `&name;` (on a letter of the name or on the `;`) and putting the letter `c`
+there leaves no predefined entity: the `;` is gone, or the name is no longer one of the five -/
+def breaksEntity (t : Str) (p : Nat) (c : Char) : Bool :=
+  let left := (t.take p).reverse.takeWhile Char.isAlpha          -- letters before p, nearest first
+  let afterLeft := (t.take p).reverse.dropWhile Char.isAlpha
+  match t[p]? with
+  | some ';' => afterLeft.head? == some '&' && !left.isEmpty
+  | some x =>
+    let right := (t.drop (p + 1)).takeWhile Char.isAlpha
+    let afterRight := (t.drop (p + 1)).dropWhile Char.isAlpha
+    x.isAlpha && afterLeft.head? == some '&' && afterRight.head? == some ';' &&
+      !(entityNames.contains (left.reverse ++ c :: right))
+  | none => false
+
 def classify (d : Doc) (r : Rendered) (dm : Damage) : DClass :=
   let valid := d.valid
   match dm with
@@ -192,6 +214,9 @@ def classify (d : Doc) (r : Rendered) (dm : Damage) : DClass :=
     else if c == Char.ofNat 1 && d.entries.all (fun e => e.filler != 2) then .damagedAt p
     else if c == '<' && inLeafText r.text p then .damagedAt p
     else if c.isAlpha && isEndTagName r.text p then .damagedAt p
+    else if c == '&' && inLeafText r.text p then .damagedAt p          -- a bare `&` (no `;` before the next `<`)
+    else if c.isAlpha && isOpeningQuote r.text p then .damagedAt p      -- an attribute value that lost its quote
+    else if c.isAlpha && breaksEntity r.text p c then .damagedAt p      -- `&amp;` with a damaged name or no `;`
     else .unknown
   | .hset p b =>
     -- a lone byte ≥ 0x80 between ASCII bytes is invalid UTF-8 wherever it stands inside the root element
